@@ -77,6 +77,14 @@ pub fn super_version_parts(sv: &SuperVersion) -> (Version, SeqNo, Vec<u64>, u64)
     )
 }
 
+/// Memtables of a super version: the active one first, then the sealed ones (oldest first).
+#[must_use]
+pub fn super_version_memtables(sv: &SuperVersion) -> Vec<Arc<crate::Memtable>> {
+    let mut v = vec![sv.active_memtable.clone()];
+    v.extend(sv.sealed_memtables.iter().cloned());
+    v
+}
+
 /// (item count, on-disk value bytes, uncompressed value bytes) of a blob file.
 #[must_use]
 pub fn blob_file_meta(bf: &BlobFile) -> (u64, u64, u64) {
